@@ -1036,6 +1036,13 @@ static void gen_expr(Node *node) {
 
     int sz = node->lhs->ty->base->size;
     println("  xchg %s, (%%rdi)", reg_ax(sz));
+
+    // The previous value arrives in the low bytes only; extend it the
+    // way a load of that type would.
+    if (sz == 1)
+      println("  %s %%al, %%eax", node->ty->is_unsigned || node->ty->kind == TY_BOOL ? "movzbl" : "movsbl");
+    else if (sz == 2)
+      println("  %s %%ax, %%eax", node->ty->is_unsigned ? "movzwl" : "movswl");
     return;
   }
   }
